@@ -1,11 +1,14 @@
 import Martian.Lemmas.Marbl
 import Martian.Generated.Marbl
+import Martian.Props.C19.Writer
 /-!
 C19 — marbl streams decode to the logged messages with intact, ordered bodies.
 Only property theorems and non-vacuity examples live here.
 Quantifiers: every frame / every list of frames (any lengths below 2^32, any bytes), every byte
 string fed to the reader, every list of read results of the wrapped body, every interleaving
-(`Shuffle`) of the frame sequences of any number of concurrently logged messages.
+(`Shuffle`) of the frame sequences of any number of concurrently logged messages; and (`Props/C19/Writer.lean`,
+`concurrent_log_roundtrip` below) every run of the stream's goroutines — logging goroutines, unbuffered channel,
+single writer goroutine — which is where `Shuffle` comes from.
 -/
 namespace Martian.Props.C19
 open Martian Martian.Marbl
@@ -224,6 +227,35 @@ theorem logged_message_roundtrip (ms : List (List Frame)) (l : List Frame) (hs :
   apply List.map_congr_left
   intro kv _; rfl
 
+/-- The statement of C19 over the runs of the stream's goroutines (no interleaving is assumed): any number of logging
+goroutines send the frame sequences `ms` as `marbl.go` does (one channel send per frame: the regenerated fact), the
+writer goroutine takes them in any order the scheduler produces and `Write`s each; when everything has come to rest
+the bytes written parse back, for the (id, type) of message `i`, to exactly that message. -/
+theorem concurrent_log_roundtrip (ms : List (List Frame)) (steps : List Step) (s' : Sys Bytes)
+    (hrun : (Sys.init (ms.map (senderChunks Generated.Marbl.framecSendsWhole))).exec steps = some s')
+    (hq : s'.quiescent = true) (hv : ∀ m ∈ ms, ∀ f ∈ m, f.Valid)
+    (i : Nat) (mt : UInt8) (id : Bytes) (hdrs : List (Bytes × Bytes)) (reads : List ReadRes)
+    (hmsg : ms[i]? = some (messageFrames mt id hdrs reads))
+    (hothers : ∀ (j : Nat) (m : List Frame), j ≠ i → ms[j]? = some m → ∀ f ∈ m, f.key ≠ (id.take 8, mt))
+    (hreads : reads.length ≤ two32) :
+    let got := (readAll s'.out.flatten).1.filter (fun f => f.key == (id.take 8, mt))
+    let hs := got.filter (fun f => !f.isData)
+    let ds := got.filter Frame.isData
+    got = hs ++ ds ∧
+    hs.map Frame.nameValue = hdrs ∧
+    ds.map Frame.index = List.range reads.length ∧
+    (ds.map Frame.payload).flatten = (reads.map ReadRes.data).flatten ∧
+    ds.map Frame.terminal = reads.map (fun r => r.err == .eof) ∧
+    (bodyRun mt (id.take 8) 0 reads).1 = reads := by
+  obtain ⟨l, hl, hout⟩ := stream_is_frame_granular ms steps s' hrun hq
+  have hvl : ∀ f ∈ l, f.Valid := by
+    intro f hf
+    obtain ⟨m, hm, hfm⟩ := hl.mem f hf
+    exact hv m hm f hfm
+  have := logged_message_roundtrip ms l hl hvl i mt id hdrs reads hmsg hothers hreads
+  rw [hout]
+  exact this
+
 /-- A request whose body is `http.NoBody` is logged as an empty body read once to end-of-file
 (one data frame: index 0, terminal, no bytes), whatever the consumer does with `http.NoBody`
 afterwards; so `logged_message_roundtrip` applies to it with `reads := noBodyReads`. -/
@@ -287,6 +319,13 @@ set_option maxRecDepth 8192 in
 example : (readAll (encodeAll exL)).1.filter (fun f => f.key == (idA, 1)) = [a1, a2, a3] := by decide
 set_option maxRecDepth 8192 in
 example : (readAll (encodeAll exL)).2 = .err .eof := by decide
+
+/-- the interleaving `exL` as a run of the goroutine system: takes for senders 0 1 0 1 0, each followed by its write, then Close -/
+example : replayWrites [[a1, a2, a3].map encode, [b1, b2].map encode] [0, 1, 0, 1, 0] = some (exL.map encode) := by decide
+example : (Sys.init [[a1, a2, a3], [b1, b2]]).exec (schedSteps [0, 1, 0, 1, 0] ++ [.close]) =
+    some ⟨[[], []], .exited, exL⟩ := by decide
+/-- a step that is not enabled (the writer is still inside `Write`) is not a run -/
+example : (Sys.init [[a1], [b1]]).exec [.take 0, .take 1] = none := by decide
 
 example : (readAll (subscriberStream .fresh exL)).1.filter (fun f => f.key == (idA, 1)) = [a1, a2, a3] := by
   rw [subscriber_stream_roundtrip exL (by decide)]; decide
